@@ -291,6 +291,7 @@ def translate_package(files, file_to_mod, proto_name_of_mod=None):
         if rp in rust2fq:
             return rust2fq[rp][0]
         raise TranslateError("unresolved type path " + rp)
+    anomalies = []
     for fq, m in messages.items():
         out = []
         for f in m["fields"]:
@@ -305,7 +306,13 @@ def translate_package(files, file_to_mod, proto_name_of_mod=None):
                         gg["ref"] = ref_fq(gg.pop("ref_rust"))
                     alts.append(gg)
                 if sorted(a["tag"] for a in alts) != sorted(f["tags"]):
-                    raise TranslateError("%s: oneof tags %r do not match its variants" % (fq, f["tags"]))
+                    # prost dispatches a tag to the oneof only when the struct's `tags` list names it, and encodes only the
+                    # enum's variants: an alternative outside the intersection is dropped when decoding (or never written).
+                    # The schema keeps the alternatives that work in both directions; the lost ones are recorded, and
+                    # show up as fields the pinned baseline has and the bindings no longer decode.
+                    anomalies.append({"message": fq, "oneof": f["name"], "tags": sorted(f["tags"]),
+                                      "variant_tags": sorted(a["tag"] for a in alts)})
+                    alts = [a for a in alts if a["tag"] in f["tags"]]
                 out.append({"name": f["name"], "kind": "oneof", "alts": alts})
             else:
                 g = dict(f)
@@ -313,7 +320,7 @@ def translate_package(files, file_to_mod, proto_name_of_mod=None):
                     g["ref"] = ref_fq(g.pop("ref_rust"))
                 out.append(g)
         m["fields"] = out
-    return messages, enums, {"messages": len(messages), "enums": len(enums), "oneofs": len(oneofs), "fields": nfields}
+    return messages, enums, {"messages": len(messages), "enums": len(enums), "oneofs": len(oneofs), "fields": nfields, "oneof_anomalies": anomalies}
 
 
 def resolve_rel(path, scope):
